@@ -132,7 +132,7 @@ def chain_holds(case, nu, om):
 
 # ------------------------------------------------------------------ programs
 def gen_program(rng, i):
-    kind = rng.choice(["contain2d", "contain2d", "visibility", "rh", "rh", "rh", "dist"])
+    kind = rng.choice(["contain2d", "contain2d", "contain2d", "visibility", "rh", "rh", "rh", "rh", "dist"])
     L = []
     meta = dict(template=kind)
     if kind == "contain2d":
@@ -144,7 +144,17 @@ def gen_program(rng, i):
             L.append(f"workspace = Workspace(PolygonalRegion([0@0, {w}@0, {w}@{h // 2}, {w // 2}@{h // 2}, {w // 2}@{h}, 0@{h}]))")
         ow = rng.choice(["1", "2", "Range(0.5, 2)", "0.5"])
         ol = rng.choice(["1", "3", "Range(1, 2.5)"])
-        face = rng.choice(["", ", facing 30 deg", ", facing Range(-40, 40) deg", ", facing 90 deg"])
+        # flat / tall shapes and roll / pitch (constants and distributions): the planar-inradius erosion is only
+        # valid for objects lying flat; everything else must fall back to the 3D inradius
+        oh = rng.choice(["", "", ", with height 0.1", ", with height 0.2", ", with height 4", ", with height Range(0.1, 0.4)"])
+        rot = rng.choice(["", "", "", ", with roll 90 deg", ", with roll Range(30, 90) deg", ", with roll 0", ", with pitch 90 deg",
+                          ", with pitch Range(-60, 60) deg", ", with roll 60 deg, with pitch 30 deg", ", with roll -90 deg",
+                          ", with pitch 0, with roll Uniform(0, 90) deg"])
+        if rot:
+            face = rng.choice(["", ", with yaw 30 deg", ", with yaw Range(-40, 40) deg", ", with yaw 90 deg"])
+        else:
+            face = rng.choice(["", ", facing 30 deg", ", facing Range(-40, 40) deg", ", facing 90 deg"])
+        face = face + oh + rot
         how = rng.choice(["in workspace", "on workspace", "in workspace", "offset"])
         if how == "offset":
             L.append(f"ego = new Object in workspace, with width {ow}, with length {ol}{face}")
@@ -152,7 +162,9 @@ def gen_program(rng, i):
         else:
             L.append(f"ego = new Object {how}, with width {ow}, with length {ol}{face}")
             if rng.random() < 0.5:
-                L.append(f"other = new Object in workspace, with width {rng.choice(['1', 'Range(0.5, 1.5)'])}, with length 1, with allowCollisions True")
+                orot = rng.choice(["", "", ", with roll 90 deg, with height 0.1", ", with pitch Range(0, 90) deg, with height 0.2"])
+                L.append(f"other = new Object in workspace, with width {rng.choice(['1', 'Range(0.5, 1.5)', '2'])}, with length {rng.choice(['1', '2'])}, with allowCollisions True{orot}")
+        meta.update(rolled=bool(rot), flat=("0." in oh))
         meta.update(shape=shape, how=how)
     elif kind == "visibility":
         side = rng.choice([14, 20, 30])
@@ -166,13 +178,31 @@ def gen_program(rng, i):
     elif kind == "rh":
         h1 = rng.choice([0, 30, 90, 170, -170, 180, -90, 135])
         h2 = rng.choice([0, 90, 170, -170, -135, 45, 180])
-        L.append("r1 = PolygonalRegion([0@0, 10@0, 10@10, 0@10])")
-        L.append("r2 = PolygonalRegion([20@0, 30@0, 30@10, 20@10])")
+        # cell geometry, per-object visibleDistance and sizes: which object's visibleDistance / radius bounds the distance
+        # between the two matters as soon as they differ
+        vis = rng.choice(["with requireVisible True", "visible from ego", "visible from ego", "ego visible from other", "dist", "dist"])
+        vdE = rng.choice([15, 30, 60, 100])
+        vdO = rng.choice([None, None, 10, 20, 80])
+        observer_vd = {"with requireVisible True": vdE, "visible from ego": vdE, "ego visible from other": vdO or 50, "dist": 35}[vis]
+        w1 = rng.choice([10, 30, 40])
+        gap = rng.choice([g for g in (5, 10, 25, 40, 70) if g < observer_vd] or [5])
+        x2 = w1 + gap
+        szE, szO = rng.choice([1, 1, 4]), rng.choice([1, 1, 6])
+        L.append(f"r1 = PolygonalRegion([0@0, {w1}@0, {w1}@10, 0@10])")
+        L.append(f"r2 = PolygonalRegion([{x2}@0, {x2 + 10}@0, {x2 + 10}@10, {x2}@10])")
         L.append(f'vf = PolygonalVectorField("Foo", [[r1.polygons, {h1} deg], [r2.polygons, {h2} deg]])')
         L.append("union = r1.union(r2)")
-        L.append(f"ego = new Object in union, facing vf, with allowCollisions True, with visibleDistance {rng.choice([30, 100])}")
-        vis = rng.choice(["with requireVisible True", "visible from ego", "dist", "dist"])
-        L.append("other = new Object in union, facing vf, with allowCollisions True" + ("" if vis == "dist" else ", " + vis))
+        egoline = (f"ego = new Object in union, facing vf, with allowCollisions True, with visibleDistance {vdE}, "
+                   f"with width {szE}, with length {szE}")
+        otherline = (f"other = new Object in union, facing vf, with allowCollisions True, with width {szO}, with length {szO}"
+                     + ("" if vdO is None else f", with visibleDistance {vdO}"))
+        if vis == "ego visible from other":
+            L.append(otherline)
+            L.append(egoline + ", visible from other")
+        else:
+            L.append(egoline)
+            L.append(otherline + ("" if vis == "dist" else ", " + vis))
+        meta.update(vis=vis, vdE=vdE, vdO=vdO, gap=gap, w1=w1, sizes=[szE, szO])
         b = rng.choice([20, 40, 60, -30, 10])
         form = rng.choice([f"(relative heading of other) >= {b} deg", f"(relative heading of other) <= {b} deg",
                            f"{b - 30} deg <= (relative heading of other) <= {b + 30} deg",
@@ -180,11 +210,11 @@ def gen_program(rng, i):
                            f"abs((relative heading of other) - {b} deg) <= 25 deg",
                            f"(relative heading of other) != {b} deg"])
         D = ((h2 - h1 + 180) % 360) - 180      # relative heading of a cell-2 object seen from a cell-1 ego
-        if abs(D) >= 40 and rng.random() < 0.5:   # only cross-cell placements satisfy it
+        if abs(D) >= 40 and rng.random() < 0.6:   # only cross-cell placements satisfy it
             form = f"abs((relative heading of other) - {D} deg) <= 20 deg"
         L.append("require " + form)
         if vis == "dist":
-            L.append(f"require (distance to other) <= {rng.choice([25, 35])}")
+            L.append(f"require (distance to other) <= {rng.choice([25, 35]) if gap < 25 else gap + rng.choice([5, 15])}")
         seam = (abs(h1) >= 135 or abs(h2) >= 135)
         meta.update(h1=h1, h2=h2, form=form, seam=seam, wrap=bool(abs(h2 - h1) > 180))
     else:
@@ -219,7 +249,7 @@ def main():
     nmatch = 2000 if quick else 200000
     nrh = 400 if quick else 20000
     niter = 40 if quick else 400
-    nprog = 30 if quick else 1500
+    nprog = 56 if quick else 1500
     nscenes = 50 if quick else 200
 
     # ================= H-a: matcher
